@@ -30,7 +30,7 @@ func init() {
 			ex = os.Getenv("VERIF_EXEC")
 		}
 		hn := os.Getenv("VERIF_HEIGHTS")
-		job := vx.Job{Exec: ex, Hist: hist, Args: map[string]string{"props": allProps, "results": "1", "mode": mode, "seed": os.Getenv("VERIF_SEEDLEN"), "heights": hn, "prog": os.Getenv("VERIF_PROG")}}
+		job := vx.Job{Exec: ex, Hist: hist, Args: map[string]string{"props": allProps, "results": "1", "mode": mode, "seed": os.Getenv("VERIF_SEEDLEN"), "heights": hn, "prog": os.Getenv("VERIF_PROG"), "adversary": os.Getenv("VERIF_ADV")}}
 		if n, _ := strconv.Atoi(os.Getenv("VERIF_INPROC")); n > 0 {
 			f, _ := os.Create("/tmp/hmirror.prof")
 			pprof.StartCPUProfile(f)
@@ -209,15 +209,15 @@ var _ = registry
 func init() {
 	registry.Checks["C03"] = func(c *vx.Ctx) {
 		c.Level = "model_checking"
-		c.Rule = "executions = three real engines (tmengine.New, validators 0-2, lock-respecting strategy, harness timers/drivers) plus a Byzantine validator (<1/3) in one synctest bubble; every signature and proposed header appearing in a node's views becomes a network message; default schedule = FIFO delivery to everyone, timers fire only when nothing is deliverable; deviations = drop, postpone or duplicate a delivery, fire a timer early, restart a node, Byzantine proposal (two variants) or prevote/precommit (for any known block, nil or an unknown hash) to one node or all; all single deviations at every step, all single deviations after each adversarial seed prefix, thorough: all pairs of core deviations; the agreement oracle runs after every step; non-trivial = every node finalized at least one height, distinct by the set of (height, block, nodes) finalizations"
+		c.Rule = "executions = three real engines (tmengine.New, validators 0-2, lock-respecting strategy, harness timers/drivers) plus a Byzantine validator (<1/3) in one synctest bubble; every signature and proposed header appearing in a node's views becomes a network message; default schedule = FIFO delivery to everyone, timers fire only when nothing is deliverable; deviations = drop, postpone or duplicate a delivery, fire a timer early, restart a node, Byzantine proposal (two variants) or prevote/precommit (for any known block, nil or an unknown hash) to one node or all; all single deviations at every step, all single deviations after each adversarial seed prefix and on top of a scripted split-view adversary (the victim never receives the honest proposal but a Byzantine block, the rest commits with Byzantine help), thorough: all pairs of core deviations; the agreement oracle runs after every step; non-trivial = every node finalized at least one height, distinct by the set of (height, block, nodes) finalizations"
 		heights, maxDev := 2, 1
 		if !c.Quick() {
 			heights, maxDev = 3, 2
 		}
-		// Adversarial seeds: the Byzantine validator is the designated proposer of 2/0.
+		// Adversarial seeds around the start of height 2 (competing Byzantine proposals split across the nodes) and at height 1.
 		seeds := [][]string{
-			{"15:BYZ:ph:A:0", "15:BYZ:ph:B:1", "15:BYZ:ph:A:2", "16:BYZ:p:P0:0", "16:BYZ:p:P1:1"},
-			{"19:BYZ:ph:A:0", "19:BYZ:ph:B:1", "20:BYZ:p:P0:all", "21:BYZ:c:P0:0"},
+			{"18:BYZ:ph:A:0", "18:BYZ:ph:B:1", "18:BYZ:ph:A:2", "19:BYZ:p:P0:0", "19:BYZ:p:P1:1"},
+			{"22:BYZ:ph:A:0", "22:BYZ:ph:B:1", "23:BYZ:p:P0:all", "24:BYZ:c:P0:0"},
 			{"5:BYZ:c:P0:0", "6:DROP", "7:DROP", "8:RST:1"},
 		}
 		exploreNet(c, heights, maxDev, seeds)
